@@ -45,6 +45,7 @@ Accepts(ev) ==
          /\ G("C12", "FinalCount", ev.cell = cnt)
          /\ G("C12", "AllReleasedAtEnd", ev.complete = 1 => holder = -1)
     [] ev.e = "stall" -> G("C12", "NoStall_LockAcquiredWheneverFree", FALSE)
+    [] ev.e = "hang" -> G("C12", "EveryCallReturns", FALSE)
     [] OTHER -> G("C12", "UnmatchableEvent", FALSE)
 
 Apply(ev) ==
